@@ -57,6 +57,7 @@ type c03ctx struct {
 	unprot     map[*ssa.Function]*ssa.Function
 	pending    []c03pending
 	k1out      []c03k1out
+	k1cache    map[c03k1key][2]string
 }
 
 func runC03(c *core.Ctx) {
@@ -263,47 +264,7 @@ func (x *c03ctx) k1pair(owner *ssa.Function, inner, atoms []c03atom, stab []ssa.
 	base := core.FuncKey(owner) + ": panic when " + x.k1desc(owner, inner)
 	key := base + " <- " + core.FuncKey(s.Parent())
 	args := x.e.siteArgs(s, owner)
-	proved := ""
-	fail := "the panic's guard does not speak about the function's parameters"
-	if args != nil {
-		for _, a := range atoms {
-			na, ok := a.negate().subst(args)
-			if !ok {
-				continue
-			}
-			// stability of the atom's memory in every frame on the way down to the panic: from the entry of the panic's
-			// function up to the panic, and from the entry of each function the pair was lifted through up to the call
-			// of the helper (the lifted atom is a substitution instance, so its field set covers the helper's atom)
-			stable := true
-			flds, _ := a.t.memFields()
-			if a.u != nil {
-				f2, _ := a.u.memFields()
-				flds = append(flds, f2...)
-			}
-			for _, upTo := range append([]ssa.Instruction{p}, stab...) {
-				if !x.e.stableBetween(nil, upTo, flds) {
-					stable = false
-					fail = "guarded location may be written inside " + core.FuncKey(upTo.Parent()) + " before the test"
-				}
-			}
-			if !stable {
-				continue
-			}
-			pr := x.e.prove(c03goal{kind: "atom", atom: na, t: na.t}, s, 1)
-			if pr.ok {
-				proved = "caller establishes " + na.pretty() + ": " + pr.how
-				break
-			}
-			fail = "caller does not establish " + na.pretty() + " (" + pr.how + ")"
-		}
-	}
-	if proved == "" && args != nil && owner == p.Parent() {
-		// the guard is not a plain fact about the parameters (a phi, a predicate call, a disjunction): decide it
-		// for the arguments of this call
-		if how, ok := x.k1siteRefute(p, s, args); ok {
-			proved = how
-		}
-	}
+	proved, fail := x.k1mech(owner, atoms, stab, p, s, args)
 	if proved != "" {
 		x.k1out = append(x.k1out, c03k1out{status: core.Discharged, key: key, detail: proved})
 		return true
@@ -401,6 +362,68 @@ func (x *c03ctx) k1pair(owner *ssa.Function, inner, atoms []c03atom, stab []ssa.
 	return false
 }
 
+// k1mech: the mechanical part of a (panic, call site) pair: the caller establishes the negation of the panic's guard.
+// The outcome is cached per (owner, panic, call site): runK1 evaluates all sites of a panic first (see there).
+func (x *c03ctx) k1mech(owner *ssa.Function, atoms []c03atom, stab []ssa.Instruction, p *ssa.Panic, s ssa.CallInstruction, args []*c03term) (proved, fail string) {
+	ck := c03k1key{owner, p, s}
+	if r, ok := x.k1cache[ck]; ok {
+		return r[0], r[1]
+	}
+	defer func() {
+		if x.k1cache == nil {
+			x.k1cache = map[c03k1key][2]string{}
+		}
+		x.k1cache[ck] = [2]string{proved, fail}
+	}()
+	fail = "the panic's guard does not speak about the function's parameters"
+	if args != nil {
+		for _, a := range atoms {
+			na, ok := a.negate().subst(args)
+			if !ok {
+				continue
+			}
+			// stability of the atom's memory in every frame on the way down to the panic: from the entry of the panic's
+			// function up to the panic, and from the entry of each function the pair was lifted through up to the call
+			// of the helper (the lifted atom is a substitution instance, so its field set covers the helper's atom)
+			stable := true
+			flds, _ := a.t.memFields()
+			if a.u != nil {
+				f2, _ := a.u.memFields()
+				flds = append(flds, f2...)
+			}
+			for _, upTo := range append([]ssa.Instruction{p}, stab...) {
+				if !x.e.stableBetween(nil, upTo, flds) {
+					stable = false
+					fail = "guarded location may be written inside " + core.FuncKey(upTo.Parent()) + " before the test"
+				}
+			}
+			if !stable {
+				continue
+			}
+			pr := x.e.prove(c03goal{kind: "atom", atom: na, t: na.t}, s, 1)
+			if pr.ok {
+				proved = "caller establishes " + na.pretty() + ": " + pr.how
+				break
+			}
+			fail = "caller does not establish " + na.pretty() + " (" + pr.how + ")"
+		}
+	}
+	if proved == "" && args != nil && owner == p.Parent() {
+		// the guard is not a plain fact about the parameters (a phi, a predicate call, a disjunction): decide it
+		// for the arguments of this call
+		if how, ok := x.k1siteRefute(p, s, args); ok {
+			proved = how
+		}
+	}
+	return proved, fail
+}
+
+type c03k1key struct {
+	owner *ssa.Function
+	p     *ssa.Panic
+	s     ssa.CallInstruction
+}
+
 type c03k1out struct {
 	status, key, detail string
 }
@@ -432,6 +455,21 @@ func (x *c03ctx) runK1() {
 				if len(sites) == 0 {
 					x.settle("K1", base+" <- (no static caller)", p, c03reviewedK1, "explicit panic in reachable code whose callers cannot be enumerated")
 					continue
+				}
+				// A reviewed entry says how many call sites of a caller were reviewed. A site that is now discharged
+				// mechanically is still one of them: it keeps its slot, so that a further, undischarged call from the same
+				// caller is not covered by the slot it would otherwise free. All sites are therefore judged before any
+				// reviewed entry is taken.
+				for _, s := range sites {
+					if cp := core.FuncPkg(s.Parent()); cp == nil || !core.InRepo(cp) {
+						continue
+					}
+					if proved, _ := x.k1mech(f, atoms, nil, p, s, x.e.siteArgs(s, f)); proved != "" {
+						key := base + " <- " + core.FuncKey(s.Parent())
+						if a, ok := c03reviewedK1[key]; ok && x.argCount["K1\x00"+key] < a.n {
+							x.argCount["K1\x00"+key]++
+						}
+					}
 				}
 				extSeen := map[string]bool{}
 				for _, s := range sites {
